@@ -58,7 +58,7 @@ func ChainPattern(v pdf.Version, idx int) []pdf.Filter {
 //	1  /Filter name, no /DecodeParms
 //	2  /Filter array, /DecodeParms array of the same length with null entries
 //	3  /Filter array, no /DecodeParms
-var DeclShapes = [4][][]pdf.Filter{
+var DeclShapes = [7][][]pdf.Filter{
 	{
 		{pdf.FilterFlate{Predictor: 12, Columns: 5}},
 		{pdf.FilterLZW{}},
@@ -82,6 +82,25 @@ var DeclShapes = [4][][]pdf.Filter{
 		{pdf.FilterASCIIHex{}}, {pdf.FilterASCII85{}, pdf.FilterRunLength{}},
 		{pdf.FilterFlate{}, pdf.FilterASCIIHex{}, pdf.FilterLZW{OffByOne: true}},
 	},
+	// 4: /Filter array, /DecodeParms array SHORTER than it: the entries of the trailing filters,
+	//    which have no parameters, are left out (missing entries = no parameters)
+	// 5: the same with only the last entry left out
+	// 6: /DecodeParms array LONGER than /Filter (one more null)
+	shortVariants, shortVariants, shortVariants,
+}
+
+// chains whose last filters have no parameters, behind filters that have some (a predictor with
+// rows of one byte: wrong or missing parameters change the decoded bytes); at the positions
+// without parameters Flate and LZW, which would take a predictor
+var shortVariants = [][]pdf.Filter{
+	{pdf.FilterFlate{Predictor: 12}, pdf.FilterFlate{}},
+	{pdf.FilterFlate{Predictor: 12}, pdf.FilterLZW{OffByOne: true}},
+	{pdf.FilterLZW{}, pdf.FilterFlate{}, pdf.FilterASCIIHex{}},
+	{pdf.FilterASCII85{}, pdf.FilterLZW{Predictor: 12}, pdf.FilterFlate{}},
+	{pdf.FilterFlate{Predictor: 12}, pdf.FilterASCIIHex{}, pdf.FilterFlate{}},
+	{pdf.FilterFlate{}, pdf.FilterFlate{}},
+	{pdf.FilterFlate{Predictor: 11}, pdf.FilterRunLength{}, pdf.FilterLZW{OffByOne: true}},
+	{pdf.FilterLZW{Predictor: 12, OffByOne: true}, pdf.FilterLZW{OffByOne: true}, pdf.FilterFlate{}, pdf.FilterFlate{}},
 }
 
 // declare puts the chain into d (shape as listed above) and returns every slice it made, so
@@ -117,6 +136,23 @@ func declare(d pdf.Dict, v pdf.Version, shape int, fs []pdf.Filter) []pdf.Object
 		d["Filter"] = names[0]
 		return nil
 	case 2:
+		nb, pb := spare(names), spare(parms)
+		d["Filter"] = nb[:len(names)]
+		d["DecodeParms"] = pb[:len(parms)]
+		return []pdf.Object{nb, pb}
+	case 4, 5, 6:
+		switch shape {
+		case 4:
+			for len(parms) > 0 && parms[len(parms)-1] == nil {
+				parms = parms[:len(parms)-1]
+			}
+		case 5:
+			if len(parms) > 0 && parms[len(parms)-1] == nil {
+				parms = parms[:len(parms)-1]
+			}
+		default:
+			parms = append(parms, nil)
+		}
 		nb, pb := spare(names), spare(parms)
 		d["Filter"] = nb[:len(names)]
 		d["DecodeParms"] = pb[:len(parms)]
